@@ -1000,6 +1000,7 @@ class PreludeMixin:
                 raise CheckerError('min/max over symbolic sequence: use a contract')
         if kw:
             raise CheckerError('min/max with key')
+        args = [self.unwrap_opt(st, fr, a) for a in args]      # None among the operands would be a TypeError
         cur = args[0]
         for x in args[1:]:
             c = ops.compare(op, x, cur)
